@@ -52,7 +52,7 @@ def main():
     t113 = "\n".join(out)
 
     out = ["| seeded change | what it does (one line) | needs | suite | checks run -> verdict |", "|----|----|----|----|----|"]
-    for d in sorted(glob.glob(os.path.join(HERE, "seeded/C*/[mnpr][0-9]"))):
+    for d in sorted(glob.glob(os.path.join(HERE, "seeded/C*/[mnpqr][0-9]"))):
         mp = os.path.join(d, "meta.json")
         if not os.path.exists(mp):
             continue
